@@ -100,6 +100,18 @@ def background():
                                                   t == 0), patterns=[t]))
         ax.append(z3.ForAll([A, n, v], z3.Implies(z3.And(n >= 0, z3.ForAll([i], z3.Implies(inr, hit(A[i])))),
                                                   t == n), patterns=[t]))
+    Bb = z3.Const('Bb!bg', BArr)
+    ax.append(z3.ForAll([Bb, n], z3.Implies(n >= 0, z3.And(CNT(Bb, n) >= 0, CNT(Bb, n) <= n)), patterns=[CNT(Bb, n)]))
+    ax.append(z3.ForAll([Bb, n], z3.Implies(z3.And(n >= 0, z3.ForAll([i], z3.Implies(inr, z3.Not(Bb[i])))), CNT(Bb, n) == 0),
+                        patterns=[CNT(Bb, n)]))
+    ax.append(z3.ForAll([Bb, n], z3.Implies(z3.And(n >= 0, z3.ForAll([i], z3.Implies(inr, Bb[i]))), CNT(Bb, n) == n),
+                        patterns=[CNT(Bb, n)]))
+    # L4: sums of pointwise equal arrays are equal (congruence of SUM / ISUM / CNT)
+    A2 = z3.Const('A2!bg', RArr)
+    ax.append(z3.ForAll([A, A2, n], z3.Implies(z3.ForAll([i], z3.Implies(inr, A[i] == A2[i])), SUM(A, n) == SUM(A2, n)),
+                        patterns=[z3.MultiPattern(SUM(A, n), SUM(A2, n))]))
+    from .models_sci import dist_axioms
+    ax.extend(dist_axioms())
     # L3c: #>= + #<= = n + #=
     ax.append(z3.ForAll([A, n, v], z3.Implies(n >= 0, CGE(A, n, v) + CLE(A, n, v) == n + CEQ(A, n, v)),
                         patterns=[CGE(A, n, v)]))
@@ -169,3 +181,34 @@ def has_var(e):
         elif z3.is_quantifier(t):
             return True
     return False
+
+
+def decl_names(formulas):
+    names = set()
+    seen = set()
+    stack = list(formulas)
+    while stack:
+        t = stack.pop()
+        if t.get_id() in seen:
+            continue
+        seen.add(t.get_id())
+        if z3.is_quantifier(t):
+            stack.append(t.body())
+        elif z3.is_app(t):
+            names.add(t.decl().name())
+            stack.extend(t.children())
+    return names
+
+
+def relevant_background(formulas):
+    """only the background axioms whose function symbols occur in the query"""
+    names = decl_names(formulas)
+    out = []
+    for ax in background():
+        need = decl_names([ax]) & AXIOM_SYMBOLS
+        if need & names:
+            out.append(ax)
+    return out
+
+
+AXIOM_SYMBOLS = {'floor', 'I2R', 'CGE', 'CLE', 'CEQ', 'SUM', 'ISUM', 'CNT', 'poisson_cdf', 'nbinom_cdf'}
